@@ -187,6 +187,13 @@ Judge(e, n, pre, post) ==
        /\ Chk(c.h \notin DOMAIN chain \/ chain[c.h] = c.blk, "c01_fork")
        /\ Chk(c.strict /\ ValidBlockProofAbs(c.proof, c.blk, c.h), "c03_committed_pair_rejected")
        /\ Chk(~c.proof.bad => c.proof.x = c.blk, "c04_committed_block_does_not_match_the_certified_hash")
+       \* C04: the i-th block a step hands over is for the i-th height from the one the node was deciding
+       /\ Chk(c.h = pre.h + i - 1, "c04_committed_block_is_not_for_the_height_being_decided")
+       \* C04: (first commit of the step) the block was proposed - stored proposal, or the proposal just delivered - by the leader of its view
+       /\ Chk((i = 1 /\ pre.member) =>
+                \/ \E p \in pre.pp : p.blk = c.blk /\ (p.v >= 1000000 \/ p.s = LeaderM(pre.h, p.v % NCom(pre.h)))
+                \/ (e.ev = "deliver" /\ e.msg.k \in {"PP", "NV"} /\ e.msg.blk = c.blk /\ e.msg.s = LeaderM(pre.h, e.msg.vm)),
+              "c04_committed_block_was_not_proposed_by_the_leader_of_its_view")
        /\ Chk(<<c.h, c.blk>> \in approved \/ \E j \in DOMAIN e.vals : e.vals[j].ok /\ e.vals[j].blk = c.blk, "c04_unvalidated_block_committed")
        /\ Chk(\A j \in DOMAIN H.commits : H.commits[j] < c.h, "c13_commit_heights_not_increasing")
 
